@@ -301,6 +301,8 @@ def m_identity(I, args, fn, expr):
         # instance) and whose target is a local type different from the argument's: not an identity.
         t = I.F.types[expr["ty"]]
         a = strip(v)
+        if t.get("k") == "adt" and t.get("adt") == OPTION and not isinstance(a, (Sym, Top)) and not (isinstance(a, Adt) and a.path == OPTION):
+            return some(v)      # impl<T> From<T> for Option<T>
         if t.get("k") == "adt" and isinstance(a, Adt) and a.path != t["adt"] and I.F.adts.get(t["adt"], {}).get("local") \
                 and fn.get("mono") is None and not fn.get("via_from"):
             return I.top("unresolved conversion %s -> %s" % (a.path, t["adt"]))
@@ -1667,6 +1669,30 @@ def _ordering(I, a, b):
         return Adt(ORDERING, "Less" if a < b else ("Greater" if a > b else "Equal"), {})
     if isinstance(a, Top) or isinstance(b, Top):
         raise Abort("comparison of unanalysable value")
+    if isinstance(a, str) and isinstance(b, str):
+        return Adt(ORDERING, "Less" if a < b else ("Greater" if a > b else "Equal"), {})
+    if isinstance(a, Adt) and isinstance(b, Adt) and a.path == b.path:
+        # derived ordering (a hand-written impl was dispatched by the caller): variant index, then fields in order
+        vs = None
+        try:
+            vs = [v["name"] for v in I.F.adt(a.path)["variants"]]
+        except Exception:
+            vs = None
+        if a.variant != b.variant:
+            if vs and a.variant in vs and b.variant in vs:
+                return Adt(ORDERING, "Less" if vs.index(a.variant) < vs.index(b.variant) else "Greater", {})
+        else:
+            order = None
+            if vs:
+                for v in I.F.adt(a.path)["variants"]:
+                    if v["name"] == a.variant:
+                        order = [f["name"] for f in v["fields"]]
+            keys = order if order and set(order) == set(a.fields) else sorted(a.fields)
+            for k in keys:
+                o = _ordering(I, a.fields[k], b.fields[k])
+                if o.variant != "Equal":
+                    return o
+            return Adt(ORDERING, "Equal", {})
     names = ["Less", "Equal", "Greater"]
     c = I.decide("cmp(%s, %s)" % (_nm(a), _nm(b)), names)
     return Adt(ORDERING, names[c], {})
@@ -1949,3 +1975,22 @@ for _name, _pred in (("is_ascii", lambda ch: ord(ch) < 128), ("is_alphabetic", s
     MODELS["std::char::methods::<impl char>::%s" % _name] = _char_pred(_pred, _name)
     MODELS["core::char::methods::<impl char>::%s" % _name] = _char_pred(_pred, _name)
 MODELS["core::num::<impl u8>::is_ascii"] = _char_pred(lambda ch: ord(ch) < 128, "is_ascii")
+
+
+@model("itertools::Itertools::cartesian_product")
+def m_cartesian_product(I, args, fn, expr):
+    a = _as_iter(I, args[0])
+    right = drain(I, _as_iter(I, m_into_iter(I, [args[1]], fn, None)))
+    state = {"cur": None, "j": 0}
+
+    def nxt():
+        while True:
+            if state["cur"] is None:
+                state["cur"] = a.next()       # StopIteration ends the product
+                state["j"] = 0
+            if state["j"] < len(right):
+                y = deep_copy(right[state["j"]])
+                state["j"] += 1
+                return Tup([deep_copy(state["cur"]), y])
+            state["cur"] = None
+    return RIter(nxt, "cartesian_product")
